@@ -14,6 +14,7 @@ import logging
 import math
 from unittest import mock
 
+from harness import gen_targets
 from harness import common
 from harness.common import Check, coq_bool, coq_float
 
@@ -787,6 +788,7 @@ def run(ck: Check) -> None:
     torch = _torch()
     torch.set_num_threads(1)
     ck.coq_props(extra_targets=["theories/EigenvectorsChecker.vo"])
+    gen_targets.run(ck)          # translator tie: Gallina regenerated from the source + coq/gen/EquivC12.v
 
     cases = gen_cases(ck)
     recs = [run_impl(c) for c in cases]
@@ -950,6 +952,7 @@ def run(ck: Check) -> None:
         "value-level tie in binary64; float32/bfloat16 runs tie dtype tags, control flow and exceptions, values at 1e-4 / 5e-2",
         "the estimate has the shape of A; the offload device is not modelled",
     ]
+    ck.gen_equiv_verdict()
 
 
 def replay(obj) -> bool:
